@@ -11,8 +11,6 @@ def modeName : ReplyOn → String
 
 theorem reply_arms_as_modelled : Gen.Rules.replyArms = expectedReplyArms := by decide
 
-theorem verify_steps_as_modelled : Gen.Rules.verifySteps = expectedVerifySteps := by decide
-
 /-- the model replies after a successful sub-message exactly for the variants the sources list in the `Ok` arm -/
 theorem wantsReplyOnOk_is_source_rule (m : ReplyOn) :
     wantsReplyOnOk m = (replyModes Gen.Rules.replyArms "Ok").contains (modeName m) := by
